@@ -36,9 +36,9 @@ CHECKS = {
  "C06": dict(
    engine="world",
    category="exploration",
-   text="Every F returned by update_orientations / update_all along seeded histories (non-identity starting F, non-commuting constant, time-periodic, position-dependent-along-a-moving-pathline and PyDRex's own flows, all accepted regimes, seeded partitions, bulk updates in seeded orders) is refined against an independent reference integration (expm / DOP853 at 1e-11) started from the F handed in: per call, cumulatively over the history with the statement's bound, in determinant against exp(int tr L), and split-vs-whole on a twin world executing the merged interval.",
+   text="Every F returned by update_orientations / update_all along seeded histories (non-identity starting F; non-commuting constant, time-periodic, position-dependent-along-a-moving-pathline, compact-support (pulse / shear band) flows and PyDRex's own cell / simple-shear flows and get_pathline pathlines; time origins up to 1e6; reversed intervals and round trips; all accepted regimes; seeded partitions; bulk updates in seeded orders) is refined against an independent reference integration (expm / DOP853 at 1e-11) started from the F handed in: per call, cumulatively over the history with the statement's bound, in determinant against exp(int tr L), and split-vs-whole on a twin world executing the merged interval.",
    design_ref="DESIGN.md 4.4",
-   note="reference integrator trusted; independence from phase/fabric/regime/grain count follows from every mineral being refined against the same reference within the bound",
+   note="reference integrator trusted; independence from phase/fabric/regime/grain count follows from every mineral being refined against the same reference within the bound; two listed known findings (adaptive solver stepping over compact-support fields; large backward-in-time strains) are matched narrowly and printed as KNOWN-FINDING lines",
    technique="deterministic simulation: seeded histories refined against an executable reference model",
  ),
  "C09": dict(
@@ -68,7 +68,7 @@ CHECKS = {
  "C08": dict(
    engine="world",
    category="exploration",
-   text="Seeded scheduler over 2-4 real Mineral objects (both phases, own flows/params/pathlines): call-level interleavings plus overlapped updates in which 2-3 minerals are advanced by real caller threads parked at every collaborator callback and released one at a time following a baton sequence that is part of the scenario; neighbours' updates carry injected faults. Every mineral's history (all snapshots, every returned F, every status) must be BIT-IDENTICAL between the interleaved/overlapped execution, its solo execution, the execution with phase and fraction lists permuted together, the execution with only the other phase's fraction changed, and an identically built and driven duplicate; one bulk update from the reached state in two orders must give every mineral the snapshot of its own single update and return the last mineral's F; the single-phase mineral with mobility M* x phi is compared at 1e-6 (tight solver).",
+   text="Seeded scheduler over 2-4 real Mineral objects (both phases, own flows/params/pathlines): call-level interleavings plus overlapped updates in which 2-3 minerals are advanced by real caller threads parked at every collaborator callback and released one at a time following a baton sequence that is part of the scenario; neighbours' updates carry injected faults. Every mineral's history (all snapshots, every returned F, every status) must be BIT-IDENTICAL between the interleaved/overlapped execution, its solo execution, the execution with phase and fraction lists permuted together, the execution handing an equal but newly built params dict to every call (while the driver rewrites phase fractions in place between calls), the execution with only the other phase's fraction changed, and an identically built and driven duplicate; one bulk update from the reached state in two orders must give every mineral the snapshot of its own single update and return the last mineral's F; the single-phase mineral with mobility M* x phi is compared at 1e-6 (tight solver).",
    design_ref="DESIGN.md 4.6",
    note="nested same-thread re-entry excluded (scipy LSODA forbids it); threads are real, the choice of who runs between two callbacks is the simulator's (watchdog turns a stuck hand-over into exit 2)",
    technique="deterministic simulation: seeded scheduler with baton-passed caller threads, bit-identity against solo twin",
@@ -76,7 +76,7 @@ CHECKS = {
  "C14": dict(
    engine="simpool",
    category="exploration",
-   text="Batched clause only. misorientation_indices is driven through a simulated pool (SimPool: discrete-event model of the multiprocessing.Pool API with 1..16 simulated workers, seeded heavy-tailed task durations, stalls, lazy feeding, chunking, so that completion order differs from submission order) on both entry paths (pool=, and ncpus= with pydrex.diagnostics.Pool rebound to a SimPool factory) and through the Ray branch against a stub; the output must equal the scalar misorientation_index applied snapshot by snapshot, bit for bit and in order, with every snapshot reaching the scalar function exactly once. Real multiprocessing.Pool runs (1, 2, 3, 7, 16 workers, external pool) are an uncontrolled supplement reported separately.",
+   text="Batched clause only. misorientation_indices is driven through a simulated pool (SimPool: discrete-event model of the multiprocessing.Pool API with 1..16 simulated workers, seeded heavy-tailed task durations, stalls, lazy feeding, chunking, so that completion order differs from submission order) on both entry paths (pool=, and ncpus= with pydrex.diagnostics.Pool rebound to a SimPool factory) and through the Ray branch against a stub, in histories of 1-4 calls in which an external pool is reused with other stacks / lattice systems / bin counts; the output must equal the scalar misorientation_index applied snapshot by snapshot (evaluated in children forked from the run's pristine state), bit for bit and in order, with every snapshot handed to the pool exactly once in snapshot order. SimPool models imap / imap_unordered / map / starmap / map_async / apply_async (callbacks fire in completion order) and the context-manager lifecycle. Real multiprocessing.Pool runs (1, 2, 3, 7, 16 workers, external pool) are an uncontrolled supplement reported separately.",
    design_ref="DESIGN.md 4.8",
    note="the pool and Ray are stubs modelling the documented ordering guarantees; what is decided is that PyDRex's result assembly does not depend on completion order; scalar clauses of C14 (range, invariances, limits) are pure functions and not claimed",
    technique="deterministic simulation: discrete-event simulated worker pool with seeded completion orders",
